@@ -474,9 +474,11 @@ def run(ctx):
             return None if ctx.quick else ((1, "task") if focus < 2 else None)
         if ctx.quick:
             return (1, "task") if focus == ninv - 1 else None
+        # (bound 2 for the chunk-writer pool is completed on the cheaper 'confidence_ties' body, which runs
+        # assign_confidence alone; here every execution runs brew as well)
         if focus == 2:
             return (1, "task")
-        return (2, "task") if focus == ninv - 1 else (1, "entry")
+        return (1, "task") if focus == ninv - 1 else (1, "entry")
 
     infos, e2_items = [], []
     for kind in ("pin", "confidence_ties", "pipeline2", "pipeline"):
